@@ -242,8 +242,15 @@ impl Scenario for C20 {
         if rng.chance(1, 6) {
             // a whitespace-only continuation line inside a multi-line field: odd, but every reader takes it
             let lines: Vec<&str> = text.split_inclusive('\n').collect();
-            // only between two non-blank continuation lines of one value
-            let conts: Vec<usize> = (1..lines.len()).filter(|i| lines[*i].starts_with(' ') && !lines[*i].trim().is_empty() && lines[*i - 1].starts_with(' ') && !lines[*i - 1].trim().is_empty()).collect();
+            // between two non-blank continuation lines of one value, or (a seeded fraction) right after its last one
+            let trailing = rng.chance(1, 4);
+            let conts: Vec<usize> = (1..=lines.len())
+                .filter(|i| {
+                    let prev_ok = lines[*i - 1].starts_with(' ') && !lines[*i - 1].trim().is_empty();
+                    let next_cont = *i < lines.len() && lines[*i].starts_with(' ') && !lines[*i].trim().is_empty();
+                    prev_ok && lines[*i - 1].ends_with('\n') && (next_cont || trailing)
+                })
+                .collect();
             if !conts.is_empty() {
                 let at = conts[rng.below(conts.len())];
                 let mut l: Vec<String> = lines.iter().map(|x| x.to_string()).collect();
